@@ -140,12 +140,15 @@ def cases(draw):
     hetero = draw(st.booleans())
     logs = [base_log + (draw(st.floats(-2, 2)) if hetero else 0.0) for _ in range(n)]
     logs = [min(8.0, max(-8.0, v)) for v in logs]
-    zmode = draw(st.sampled_from(["small", "tail", "far", "mixed"]))
+    zmode = draw(st.sampled_from(["small", "tail", "far", "mixed", "tiny"]))
     zs = []
     for _ in range(n):
         m = zmode if zmode != "mixed" else draw(st.sampled_from(["small", "tail", "far"]))
         if m == "small":
             zs.append(draw(st.floats(-4, 4)))
+        elif m == "tiny":
+            # a residual far below the uncertainty (a well-fitting model with generous error bars)
+            zs.append(draw(st.sampled_from([-1.0, 1.0])) * 10 ** draw(st.floats(-12, -3)))
         elif m == "tail":
             zs.append(draw(st.floats(-800, 800)))
         else:
@@ -277,7 +280,11 @@ def body_gradient(case, ctx):
     dLdF = [mp.diff(lambda f, i=i: ref_logpdf(cls, y[i], f, s[i]), mp.mpf(F[i]), h=mp.mpf(s[i]) * mp.mpf("1e-9")) for i in range(n)]
     J = model.jac(th)
     zabs = np.abs((y - F) / s)
-    gmax = {"gauss": np.maximum(zabs, 1.0) / s, "cauchy": 1.0 / s, "logistic": np.pi / (np.sqrt(3) * s)}[cls]
+    # what the rounding of y - F (eps (|y| + |F|)) can do to a slope: times the largest curvature of the log-density, 1/s^2 (gauss),
+    # 2/gamma^2 (cauchy), pi^2/(6 s^2) (logistic).  (An earlier version allowed "a few ulps of the largest slope the density can
+    # have", eps/s per datum: exactly the absolute error of the cancellation in 2/(1+exp(-z)) - 1 for a residual far below sigma,
+    # where the slope itself is of order z/s - the allowance had been sized by the implementation's error.)
+    gmax = {"gauss": 1.0, "cauchy": 2.0, "logistic": np.pi**2 / 6.0}[cls] * (np.abs(y) + np.abs(F)) / s**2
     for j in range(p):
         parts = [dLdF[i] * mp.mpf(J[i, j]) for i in range(n)]
         ref = mp.fsum(parts)
